@@ -448,20 +448,24 @@ func drawPlainLen(t *rapid.T, p streamref.Params) (int, string) {
 
 func classOfList(l []int, seg int) string {
 	if len(l) == 0 {
-		return "all-at-once"
+		return "whole"
 	}
-	z, small, big := false, false, false
+	z, small := false, false
 	for _, v := range l {
 		switch {
 		case v == 0:
 			z = true
 		case v < seg:
 			small = true
-		default:
-			big = true
 		}
 	}
-	return fmt.Sprintf("z%v-s%v-b%v", z, small, big)
+	switch {
+	case z:
+		return "chunked+zero"
+	case small:
+		return "sub-segment"
+	}
+	return "multi-segment"
 }
 
 func nsegClass(n int) string {
